@@ -9,7 +9,7 @@ CONSTANTS
   Big = 6
   MaxPieces = 2
   MaxUnits = 2
-  ReadSizes = {1, 3, 1000}
+  ReadSizes = {0, 1, 3, 1000}
   ClientMax = 2
   WithMembers = FALSE
   WithCorrupt = FALSE
@@ -24,5 +24,7 @@ CONSTANTS
   KeepPending = TRUE
   CheckEachChunk = TRUE
   ErrChecked = TRUE
+  PendingCountsAvail = TRUE
+  LineKeepsLimits = TRUE
 PROPERTY Progress
 PROPERTY ReachesEof
